@@ -312,6 +312,16 @@ class _IndexLoops(ast.NodeTransformer):
 
     visit_AsyncFunctionDef = visit_FunctionDef
 
+    def visit_Return(self, node):
+        """`return A if C else B`  ->  `if C: return A` / `else: return B`: the two outcomes become two paths, each under its condition
+        (a helper that answers with a sentinel - `size if size <= avail else 0` - is then read like the if statement it abbreviates)."""
+        v = node.value
+        if isinstance(v, ast.IfExp):
+            a = ast.copy_location(ast.Return(value=v.body), node)
+            b = ast.copy_location(ast.Return(value=v.orelse), node)
+            return ast.copy_location(ast.If(test=v.test, body=[self.visit_Return(a)], orelse=[self.visit_Return(b)]), node)
+        return node
+
 
 class ModuleInfo:
     def __init__(self, name, path, src):
